@@ -93,8 +93,13 @@ func BuildMsg(kr *Keyring, s TxSpec) sdk.Msg {
 	return nil
 }
 
-// BuildTx turns a spec into bytes. prior gives the bytes of earlier txs (for replays).
-func BuildTx(kr *Keyring, s TxSpec, prior func(block, tx int) []byte) (f TxFacts) {
+// Prior resolves references to earlier transactions of the trace (for replays).
+type Prior interface {
+	PriorSpec(block, tx int) (TxSpec, bool) // the fee-resolved spec that was executed there
+}
+
+// BuildTx turns a spec into bytes.
+func BuildTx(kr *Keyring, s TxSpec, prior Prior) (f TxFacts) {
 	f.Spec = s
 	f.Signer = s.Acct
 	defer func() {
@@ -112,10 +117,14 @@ func BuildTx(kr *Keyring, s TxSpec, prior func(block, tx int) []byte) (f TxFacts
 		f.Hash = hex.EncodeToString(tmtypes.Tx(b).Hash())
 		return
 	case "replay":
-		b := prior(s.ReplayBlock, s.ReplayTx)
-		f.Bytes = b
-		f.IsReplayOf = true
-		f.Hash = hex.EncodeToString(tmtypes.Tx(b).Hash())
+		// the very bytes of an earlier transaction: same facts, same hash
+		if orig, ok := prior.PriorSpec(s.ReplayBlock, s.ReplayTx); ok && orig.Kind != "replay" && orig.Kind != "skip" {
+			f = BuildTx(kr, orig, prior)
+			f.IsReplayOf = true
+			return
+		}
+		f.Bytes = []byte("no-such-prior-tx")
+		f.Hash = hex.EncodeToString(tmtypes.Tx(f.Bytes).Hash())
 		return
 	}
 	msg := BuildMsg(kr, s)
